@@ -94,3 +94,9 @@ func specPow128(k int) uint {
 	}
 	return 268435456
 }
+
+// specConnectOK is the representation invariant of Connect: a set will flag
+// (bit 2 of the connect flags) implies an attached will message.
+func specConnectOK(flags bits, will *Publish) bool {
+	return flags&4 == 0 || will != nil
+}
